@@ -555,6 +555,10 @@ func (fd *Client) BatchWriteItem(input *dynamodb.BatchWriteItemInput) (*dynamodb
 		return &dynamodb.BatchWriteItemOutput{}, err
 	}
 
+	if err := fd.validateBatchWriteRequests(input); err != nil {
+		return &dynamodb.BatchWriteItemOutput{}, err
+	}
+
 	unprocessed := map[string][]*dynamodb.WriteRequest{}
 
 	for table, reqs := range input.RequestItems {
@@ -614,6 +618,38 @@ func (fd *Client) BatchGetItem(input *dynamodb.BatchGetItemInput) (*dynamodb.Bat
 		Responses:       responses,
 		UnprocessedKeys: map[string]*dynamodb.KeysAndAttributes{},
 	}, nil
+}
+
+// validateBatchWriteRequests rejects the whole batch before anything is written when one of its requests
+// would fail validation (unknown table, missing or ill-typed key attributes)
+func (fd *Client) validateBatchWriteRequests(input *dynamodb.BatchWriteItemInput) error {
+	fd.mu.Lock()
+	defer fd.mu.Unlock()
+
+	if fd.forceFailureErr != nil {
+		return nil
+	}
+
+	for tableName, reqs := range input.RequestItems {
+		table, err := fd.getTable(tableName)
+		if err != nil {
+			return err
+		}
+
+		for _, req := range reqs {
+			if req.PutRequest != nil {
+				err = table.ValidatePutItem(mapAttributeValueToTypes(req.PutRequest.Item))
+			} else {
+				err = table.ValidateKey(mapAttributeValueToTypes(req.DeleteRequest.Key))
+			}
+
+			if err != nil {
+				return err
+			}
+		}
+	}
+
+	return nil
 }
 
 func validateWriteRequest(req *dynamodb.WriteRequest) error {
